@@ -22,6 +22,7 @@ import (
 	"com.tuntun.rangers/node/src/common"
 	"com.tuntun.rangers/node/src/consensus/access"
 	"com.tuntun.rangers/node/src/consensus/groupsig"
+	bn "com.tuntun.rangers/node/src/consensus/groupsig/bn256"
 	"com.tuntun.rangers/node/src/consensus/logical"
 	"com.tuntun.rangers/node/src/consensus/logical/group_create"
 	"com.tuntun.rangers/node/src/consensus/model"
@@ -243,6 +244,23 @@ func runCase(r *mon.Run, g *group, c Case, rng *rand.Rand, ns *netStub) {
 			var s groupsig.Signature
 			s.Deserialize(make([]byte, 64))
 			blockSig = s
+		case "offset-pair": // block share + D and beacon share - D: each invalid, their sum is the sum of the valid ones
+			var d groupsig.Seckey
+			db := make([]byte, 32)
+			rng.Read(db)
+			db[0] &= 0x0f
+			d.Deserialize(db)
+			D := groupsig.Sign(d, otherHash.Bytes()).Serialize()
+			var bs, be groupsig.Signature
+			if err := bs.Deserialize(addG1(blockSig.Serialize(), D, false)); err != nil {
+				panic(err)
+			}
+			if err := be.Deserialize(addG1(beacon.Serialize(), D, true)); err != nil {
+				panic(err)
+			}
+			blockSig, beacon = bs, be
+		case "swapped": // the member's two valid shares in each other's field
+			blockSig, beacon = beacon, blockSig
 		case "bad-beacon": // valid block share, beacon share over a different random value
 			beacon = groupsig.Sign(sk, otherRandom)
 		case "replay-beacon":
@@ -387,7 +405,7 @@ func genCase(rng *rand.Rand, n, k, seq int) Case {
 	for _, i := range rng.Perm(n)[:minInt(h, n)] {
 		msgs = append(msgs, Msg{From: i, Class: "honest"})
 	}
-	classes := []string{"other-hash", "other-hash", "replay-block-share", "garbage", "identity", "bad-beacon", "replay-beacon", "consistent-other-hash", "consistent-other-hash", "signpk-overwrite"}
+	classes := []string{"other-hash", "other-hash", "replay-block-share", "garbage", "identity", "bad-beacon", "replay-beacon", "consistent-other-hash", "consistent-other-hash", "signpk-overwrite", "offset-pair", "swapped"}
 	for _, b := range byz {
 		cl := classes[rng.Intn(len(classes))]
 		msgs = append(msgs, Msg{From: b, Class: cl, Aux: (b + 1 + rng.Intn(n-1)) % n})
@@ -444,6 +462,21 @@ func genCase(rng *rand.Rand, n, k, seq int) Case {
 		c.Future = 1 + rng.Intn(len(msgs))
 	}
 	return c
+}
+
+// addG1 returns the serialisation of A + B (or A - B) for two serialised G1 points.
+func addG1(a, b []byte, neg bool) []byte {
+	A, B := new(bn.G1), new(bn.G1)
+	if _, err := A.Unmarshal(a); err != nil {
+		panic(err)
+	}
+	if _, err := B.Unmarshal(b); err != nil {
+		panic(err)
+	}
+	if neg {
+		B = new(bn.G1).Neg(B)
+	}
+	return new(bn.G1).Add(A, B).Marshal()
 }
 
 func minInt(a, b int) int {
@@ -515,7 +548,7 @@ func child(args []string) {
 	cnt := 0
 	if mode == "exhaustive" {
 		// n <= 4: one Byzantine message of each class + all honest messages, every arrival order
-		for _, cl := range []string{"other-hash", "replay-block-share", "bad-beacon", "garbage", "consistent-other-hash", "signpk-overwrite"} {
+		for _, cl := range []string{"other-hash", "replay-block-share", "bad-beacon", "garbage", "consistent-other-hash", "signpk-overwrite", "offset-pair", "swapped"} {
 			var ms []Msg
 			for i := 0; i < n; i++ {
 				ms = append(ms, Msg{From: i, Class: "honest"})
